@@ -263,7 +263,7 @@ def shards(tier):
 
 
 def run_shard(spec, ctx):
-    run_given(cases(thorough=ctx.thorough), body, ctx, ctx.pick(110, 260))
+    run_given(cases(thorough=ctx.thorough), body, ctx, ctx.pick(110, 450))
 
 
 def replay(data, col):
